@@ -419,7 +419,7 @@ def joinPushLegal (how : How) : Bool × Bool → Bool
   | (false, false) => true
   | (true, false) => how == .inner || how == .left || how == .leftsemi
   | (false, true) => how == .inner || how == .right
-  | (true, true) => how == .inner || how == .left || how == .right || how == .leftsemi
+  | (true, true) => how == .inner || how == .left || how == .leftsemi
 
 /-- which input really owns the column the predicate reads in the *output*, given the collisions:
     a left suffix collision means the unsuffixed name in the output is the right input's column -/
@@ -461,7 +461,9 @@ structure FlagEntry where
   cat : Category
 deriving Repr
 
-/-- the table obligation: a flagged class is in a category with a crossing theorem, or decides by its own override -/
-def FlagEntry.ok (e : FlagEntry) : Bool := !e.flag || e.cat.filterCommuting || (e.ownCheck && e.cat == .needsOwnCheck)
+/-- the table obligation: a class that is flagged, or that decides by its own override, is in a category
+    with a crossing theorem, or is recorded as deciding by its own override (whose legality has its own theorem) -/
+def FlagEntry.ok (e : FlagEntry) : Bool :=
+  if e.flag || e.ownCheck then e.cat.filterCommuting || (e.ownCheck && e.cat == .needsOwnCheck) else true
 
 end Dx.Pred
